@@ -136,6 +136,38 @@ class WassersteinGenerator(WassersteinLil):
         return (x for x in X), out
 
 
+class FarMate:
+    """item 9 is a distribution concentrated on one support point that lies ~3000 cost units from everything else (a valid input:
+    an outlier document); used by C12 to see whether it changes the rows of its batch mates"""
+
+    def make_pool(self):
+        pool = LotBase.make_pool(self)
+        self.P = np.vstack([self.P, self.P[0] + 3000.0])
+        pool = [np.concatenate([w, [0.0]]) for w in pool]
+        far = np.zeros(V + 1)
+        far[V] = 1.0
+        return pool + [far]
+
+
+class SinkhornFar(FarMate, LotBase):
+    name = "SinkhornVectorizer[far batch mate]"
+    cls_name = "SinkhornVectorizer"
+    rtol, atol = 1e-5, 1e-6
+    configs = [dict(metric="euclidean"), dict(metric="euclidean", chunk_size=2)]
+
+
+class WassersteinSinkhornFar(FarMate, LotBase):
+    name = "WassersteinVectorizer[LOT_sinkhorn, far batch mate]"
+    base_cfg = dict(method="LOT_sinkhorn")
+    rtol, atol = 1e-5, 1e-6
+    configs = [dict(metric="euclidean")]
+
+
+class WassersteinExactFar(FarMate, LotBase):
+    name = "WassersteinVectorizer[LOT_exact, far batch mate]"
+    configs = [dict(metric="euclidean"), dict()]
+
+
 class Sinkhorn(LotBase):
     name = "SinkhornVectorizer"
     cls_name = "SinkhornVectorizer"
@@ -157,6 +189,7 @@ class ApproxWasserstein(LotBase):
     transform_kwargs = False
 
 
+FAR = {c.name: c for c in [SinkhornFar, WassersteinSinkhornFar, WassersteinExactFar]}
 ALL = {c.name: c for c in [WassersteinExact, WassersteinSinkhornMethod, WassersteinHeuristic, WassersteinLil, WassersteinGenerator,
                            Sinkhorn, ApproxWasserstein]}
 ROWWISE = list(ALL)
@@ -300,3 +333,4 @@ MEASURE = {c.name: c for c in [MeasureLil, MeasureGen, MeasureSparse, MeasureSin
                                MeasureApprox]}
 ALL.update(MEASURE)
 ROWWISE = [n for n in ROWWISE if not n.startswith("Measure")]
+ALL.update(FAR)
